@@ -79,12 +79,18 @@ func jobs(tier string) []driver.Job {
 						continue
 					}
 					s := scen{d: d, start: start, prepop: prep, conc: conc, api: api}
+					heavy := api == "ext" && len(d.Nodes) > 6
 					if th {
-						out = append(out, mkJob(s, explore.Bounds{Fault: 1, Dev: 2}, 8), mkJob(s, explore.Bounds{Fault: 2, Dev: 1}, 8))
+						out = append(out, mkJob(s, explore.Bounds{Fault: 1, Dev: 2}, 16)...)
+						out = append(out, mkJob(s, explore.Bounds{Fault: 2, Dev: 1}, 8)...)
 					} else {
-						out = append(out, mkJob(s, explore.Bounds{Fault: 1, Dev: 1}, 1))
+						nsh := 1
+						if heavy {
+							nsh = 8
+						}
+						out = append(out, mkJob(s, explore.Bounds{Fault: 1, Dev: 1}, nsh)...)
 						if conc == 2 && len(prep) == 0 {
-							out = append(out, mkJob(s, explore.Bounds{Fault: 2, Dev: 0}, 1))
+							out = append(out, mkJob(s, explore.Bounds{Fault: 2, Dev: 0}, 1)...)
 						}
 					}
 				}
@@ -94,13 +100,16 @@ func jobs(tier string) []driver.Job {
 	return out
 }
 
-func mkJob(s scen, b explore.Bounds, nsh int) driver.Job {
-	name := fmt.Sprintf("%s/%v", s.name(), b)
-	return driver.Job{Name: name, Run: func(c *driver.Ctx) {
-		for sh := 0; sh < nsh; sh++ {
+// mkJob returns one job per shard of the scenario's choice tree.
+func mkJob(s scen, b explore.Bounds, nsh int) []driver.Job {
+	var out []driver.Job
+	for sh := 0; sh < nsh; sh++ {
+		sh := sh
+		name := fmt.Sprintf("%s/%v/shard%d.%d", s.name(), b, sh, nsh)
+		out = append(out, driver.Job{Name: name, Run: func(c *driver.Ctx) {
 			var last *World
 			c.Explore(driver.Scenario{
-				Name: fmt.Sprintf("%s/shard%d.%d", name, sh, nsh), Bounds: b, Shard: sh, NShard: nsh,
+				Name: name, Bounds: b, Shard: sh, NShard: nsh,
 				Make: func() (func(), func(*vs.Result) *driver.Fail) { return s.make(&last) },
 				Nontrivial: func(res *vs.Result) string {
 					if last != nil && len(last.Injected) > 0 {
@@ -109,8 +118,9 @@ func mkJob(s scen, b explore.Bounds, nsh int) driver.Job {
 					return ""
 				},
 			})
-		}
-	}}
+		}})
+	}
+	return out
 }
 
 func (s scen) call(ctx context.Context, w *World, srcM, dstM *memory.Store, faults bool) error {
